@@ -351,6 +351,30 @@ def _roles(ctx, g, fn, label, p_seq, p_at, p_wc):
                         seq_at = True
                     elif any(from_param(z, p_wc) for z in arg0s):
                         bad.append('the writer count is compared with the sequence number (role of the awaited tag cell)')
+    # P7g: a never-written slot (tag bit still set) is not mistaken for a published one
+    tagbit = False
+    gi = ctx.graph(ctx.fn1(r'^countedindex::is_tagged$'))
+    ri = gi.strip(gi.ev_local(gi.root_inst, 0))
+    ind = None
+    if ri[0] == 'bin' and ri[1] == 'Ne':
+        l_ = gi.strip(ri[2])
+        if l_[0] == 'bin' and l_[1] == 'BitAnd':
+            for z in (l_[2], l_[3]):
+                z = gi.strip(z)
+                if z[0] == 'c':
+                    ind = str(z[1])
+    for sid in x.switches():
+        e = g.strip(g.switch_expr(sid))
+        for s_ in g.walk(e):
+            if s_[0] == 'bin' and s_[1] == 'BitAnd':
+                a_, b_ = g.strip(s_[2]), g.strip(s_[3])
+                for (p, q) in ((a_, b_), (b_, a_)):
+                    if q[0] == 'c' and str(q[1]) == ind and p[0] == 'call' and x.rep(p[1]) in x.atoms and \
+                            all(from_param(z, p_at) for z in g.call_args(p[1])[:1]):
+                        tagbit = True
+    ctx.add('P7g', 'T-GUARD', fn, tagbit, '%s: the wake-up condition tests the tag bit of the awaited cell (a never-written slot is not "published")' % label if tagbit else
+            '%s: the wake-up condition never looks at the tag bit of the awaited cell: the initial tag of a never-written slot (all ones) counts as "ahead of" every sequence number, so on a queue whose ring has not wrapped yet the waiter reports ready at once, every time - blocking receives busy-spin and Stream::poll never returns NotReady' % label,
+            sub=label + '|tagbit')
     ok = wc0 and seq_at and not bad
     ctx.add('P7f', 'T-FLOW', fn, ok, '%s: writers==0 and tag-vs-sequence tests use the arguments in their roles' % label if ok else
             '%s: wake-up condition misuses its arguments (writer count tested against 0=%s, tag cell tested against the sequence=%s; %s)' % (label, wc0, seq_at, '; '.join(sorted(set(bad)))),
